@@ -132,7 +132,7 @@ Record sys := {
   (* ghost *)
   g_parked : list N;        (* every waker ever pushed on the blocked list, in order *)
   g_bwoken : list N;        (* every waker woken by wake_blocked_futures, in order *)
-  g_bad : bool;             (* a step touched a freed state box or hit an unreachable!() / panic *)
+  g_bad : bool;             (* a step took the mutex inside a state box that had been freed (use after free) *)
 }.
 
 Definition upd {A : Type} (f : nat -> A) (i : nat) (x : A) : nat -> A :=
@@ -262,13 +262,13 @@ Definition o_completed (o : op) : op :=
         (g_woken o || waker_eqb (o_waker o) (g_lastw o)) (g_frees o) (g_cancels o).
 
 (** [Shared::update] + what [Completion::process] does with its answer: new state of the
-    operation, observations, "something impossible happened". *)
+    operation, observations, "the box had been freed". *)
 Definition o_update (i : nat) (o : op) : op * list obs * bool :=
   match o_st o with
   | Running | Done =>
       (o_completed o, match o_waker o with Some w => [OWake w] | None => [] end, negb (o_alloc o))
   | Dropped => (o_free o, [OFree i (o_started o)], negb (o_alloc o))
-  | NotStarted | Complete => (o, [OPanic], true)     (* unreachable!() *)
+  | NotStarted | Complete => (o, [OPanic], negb (o_alloc o))     (* unreachable!() *)
   end.
 
 (** * Kernel *)
@@ -302,7 +302,7 @@ Definition kcomplete (s : sys) (i : nat) : sys :=
 (** * Ring thread *)
 
 Definition poll_return (s : sys) : sys :=
-  set_ring s RIdle (pred (r_polls s)) (r_lh s) 0 false 0 [].
+  set_ring s RIdle (pred (r_polls s)) (r_lh s) 0 false 0 (r_rest s).
 
 (** [wake_blocked_futures] returns: to [enter]'s caller or out of [poll]. *)
 Definition wb_done (s : sys) : sys :=
@@ -447,7 +447,7 @@ Definition call_start (s : sys) (t : nat) (f : fthread) : sys * list obs :=
           | NotStarted => (set_thr (set_op s0 i (o_lock o t)) t (at_pc f FAddH1), [])
           | Running => (set_thr (set_op s0 i (o_repoll o w)) t (call_done f), [OPending i w])
           | Done => (set_thr (set_op s0 i (o_ready o)) t (call_done f), [OReady i])
-          | Dropped | Complete => (set_thr (set_bad s0 true) t (dead f), [OPanic])
+          | Dropped | Complete => (set_thr s0 t (dead f), [OPanic])
           end
       end
   | DropOp i :: _ =>
